@@ -122,6 +122,8 @@ class Gen:
             d["compact"] = with_fields and rng.random() < 0.3
             d["unchecked"] = (not d["compact"]) and rng.random() < 0.3
             d["underlying"] = None if with_fields else rng.choice([None] + INTEGRAL)
+            if d["underlying"]:
+                d["underlying_attrs"] = self.attrs(0.3)      # an underlying type is a type reference like any other
             lo, hi = BOUNDS[d["underlying"]] if d["underlying"] else (0, 2**31 - 1)
             ens, used, prev = [], set(), None
             for i in range(rng.randrange(0 if d["unchecked"] else 1, 4)):
@@ -148,6 +150,7 @@ class Gen:
             if self.ifaces and rng.random() < 0.5:
                 for b in rng.sample(self.ifaces, k=min(len(self.ifaces), rng.choice([1, 1, 2]))):
                     d["bases"].append(named(b, spelling=self.spelling(b, module)))
+                    d["bases"][-1]["attrs"] = self.attrs(0.3)
             ops = []
             for _ in range(rng.randrange(0, 3)):
                 o = {"name": self.name("op"), "idempotent": rng.random() < 0.3, "attrs": self.attrs(0.1), "doc": None}
@@ -243,7 +246,7 @@ def r_def(d):
                 s += " = " + r_int(e["value"], e["base"])
             ens.append(s)
         return pre + "%s%senum %s%s { %s }" % ("compact " if d["compact"] else "", "unchecked " if d["unchecked"] else "", d["name"],
-                                               (" : " + d["underlying"] + ("?" if d.get("underlying_opt") else "")) if d["underlying"] else "", ", ".join(ens))
+                                               (" : " + r_attrs(d.get("underlying_attrs", [])) + d["underlying"] + ("?" if d.get("underlying_opt") else "")) if d["underlying"] else "", ", ".join(ens))
     if k == "interface":
         ops = []
         for o in d["ops"]:
